@@ -10,6 +10,7 @@ CONSTANTS
   QueueSize = 10
   SpecialCids = {"m1", "m2"}
   Journal = FALSE
+  Fork = FALSE
   DumpFile = FALSE
   VersionedCids = {}
   QuietCids = {}
